@@ -1,2 +1,80 @@
-(* C01 - placeholder while the correspondence is being validated. *)
-From TT Require Import Lib.Base Gen.Handlers Model.Run Spec.Run Spec.C01 Corr.C01 Proof.C01.
+(* C01 - every test run is bracketed and yields exactly one outcome; an exception outside
+   Exception is reported as an error and propagates after stopTest.
+   Only statements; every proof is `exact <lemma of Proof/C01.v>`. *)
+From TT Require Import Lib.Base Gen.Handlers Model.Run Spec.Run Spec.C01 Corr.C01 Proof.RunCore Proof.C01.
+
+(* The model meets the whole statement for every finite program (any nesting of cleanups, any
+   exceptions, decorators, fixtures ...) and every result flavour. *)
+Theorem C01_holds : forall i : input, wf i = true -> spec_okb i (model i) = true.
+Proof. exact model_meets_spec. Qed.
+Print Assumptions C01_holds.
+
+(* ... and the executable statement implies the readable one (Spec.C01.Spec). *)
+Theorem C01_statement : forall i o, spec_okb i o = true -> Spec i o.
+Proof. exact spec_okb_sound. Qed.
+Print Assumptions C01_statement.
+
+(* the correspondence compares observations exactly *)
+Theorem C01_obs_eqb : forall a b, obs_eqb a b = true <-> a = b.
+Proof. exact obs_eqb_spec. Qed.
+Print Assumptions C01_obs_eqb.
+
+(* C01_bracket: the result receives startTest, one outcome, stopTest and nothing else (handler
+   calls aside); the fuel supplied always suffices; every body that should run did; no cleanup is left *)
+Theorem C01_bracket : forall p a0,
+  exists s o d, run p a0 = (s, snd (verdict p false), false)
+                /\ fst (verdict p false) = Some o
+                /\ calls (tr s) = [TStart; TOut o d; TStop]
+                /\ map shape (log s) = expected_log p /\ stack s = [].
+Proof. exact run_bracket. Qed.
+Print Assumptions C01_bracket.
+
+(* C01_base_reported: the first exception not derived from Exception is reported as the error,
+   all later stages and cleanups still run, and it propagates *)
+Theorem C01_base_reported : forall p a0 e,
+  forallb (fun co => subclass (fst co) CException) (p_handlers p) = true ->
+  find (fun e => negb (derives_from_Exception e)) (raised p) = Some e ->
+  exists s d, run p a0 = (s, Some e, false)
+              /\ calls (tr s) = [TStart; TOut OErr d; TStop]
+              /\ map shape (log s) = expected_log p /\ stack s = [].
+Proof. exact base_reported. Qed.
+Print Assumptions C01_base_reported.
+
+Theorem C01_returns_otherwise : forall p a0,
+  forallb (fun co => subclass (fst co) CException) (p_handlers p) = true ->
+  (forall e, In e (raised p) -> derives_from_Exception e = true) ->
+  exists s, run p a0 = (s, None, false).
+Proof. exact returns_otherwise. Qed.
+Print Assumptions C01_returns_otherwise.
+
+(* C01_stop_before_raise: whatever propagates, stopTest was delivered last, after exactly one outcome *)
+Theorem C01_stop_before_raise : forall p a0,
+  let '(s, propagated, oof) := run p a0 in
+  oof = false /\ last (calls (tr s)) TStart = TStop
+  /\ length (filter (fun e => match e with TOut _ _ => true | _ => false end) (tr s)) = 1.
+Proof. exact stop_delivered. Qed.
+Print Assumptions C01_stop_before_raise.
+
+(* the facts about TestCase.exception_handlers of the tree under test that the proofs use
+   (re-checked against the regenerated table on every run) *)
+Theorem C01_table :
+  last_resort = Some OErr
+  /\ forallb (fun h => match h_out h with Some _ => true | None => false end) generated_handlers = true
+  /\ forallb (fun h => subclass (h_cls h) CException) generated_handlers = true
+  /\ match rev generated_handlers with h :: _ => cls_eqb (h_cls h) CException | [] => false end = true
+  /\ (run_passes_table = true /\ length generated_handlers = length exception_handlers).
+Proof. exact (conj table_last_resort (conj table_outcomes (conj table_within_Exception
+             (conj table_catch_all_last table_complete)))). Qed.
+Print Assumptions C01_table.
+
+(* non-vacuity: KeyboardInterrupt in the test, an ordinary error in a cleanup registered by a
+   cleanup, an empty MultipleExceptions in tearDown *)
+Example C01_example :
+  let p := {| p_skip := None; p_xfail := false;
+              p_setup := (1, [ACleanup 10 [ACleanup 11 [ARaise (Exc CValueError None)]]]); p_up_setup := true;
+              p_body := (2, [ARaise (Exc CKbd None)]);
+              p_teardown := (3, [ARaise (Multi [])]); p_up_teardown := true; p_handlers := [] |} in
+  wf {| i_prog := p; i_flavour := F26 |} = true
+  /\ model {| i_prog := p; i_flavour := F26 |} = {| o_events := [Start; Out OErr; Stop]; o_raised := RKbd |}
+  /\ raised p = [Exc CKbd None; Multi []; Exc CValueError None].
+Proof. vm_compute. repeat split. Qed.
